@@ -33,18 +33,18 @@ const (
 type opKind int
 
 const (
-	kAtom opKind = iota
-	kBin         // left-associative binary (Or, And, bit ops, shift, add, mul) and comparison binary (level lvCmp)
-	kUnary       // + - ~
+	kAtom  opKind = iota
+	kBin          // left-associative binary (Or, And, bit ops, shift, add, mul) and comparison binary (level lvCmp)
+	kUnary        // + - ~
 	kNot
-	kIn        // [NOT] IN (list)
-	kInUnnest  // [NOT] IN UNNEST(x)
-	kBetween   // [NOT] BETWEEN
-	kIsNull    // IS [NOT] NULL
-	kIsBool    // IS [NOT] TRUE/FALSE
-	kSelector  // .f
-	kIndex     // [i]
-	kIndexKw   // [OFFSET(i)]
+	kIn       // [NOT] IN (list)
+	kInUnnest // [NOT] IN UNNEST(x)
+	kBetween  // [NOT] BETWEEN
+	kIsNull   // IS [NOT] NULL
+	kIsBool   // IS [NOT] TRUE/FALSE
+	kSelector // .f
+	kIndex    // [i]
+	kIndexKw  // [OFFSET(i)]
 )
 
 type opDef struct {
@@ -151,8 +151,8 @@ func copyAssign(t *tnode, variant int) *tnode {
 	rec = func(n *tnode, postfixBase bool) *tnode {
 		if n.op == nil {
 			c := &tnode{leaf: leaf}
-			k := (variant + leaf*3) % 5
-			if postfixBase && (k == 2 || k == 3) {
+			k := (variant + leaf*3) % 7
+			if postfixBase && (k == 2 || k == 3 || k >= 5) {
 				k = 0 // string / number are not used as base of .f / [i]
 			}
 			c.atom = k
@@ -183,6 +183,12 @@ func atomToks(n *tnode) ([]string, string) {
 		return []string{v}, "A(" + v + ")"
 	case 4:
 		return []string{"f", "(", name, ")"}, "C(f," + name + ")"
+	case 5: // integers at and beyond the INT64 boundary
+		v := []string{"9223372036854775807", "9223372036854775808", "18446744073709551616"}[n.leaf%3]
+		return []string{v}, "A(" + v + ")"
+	case 6:
+		v := []string{"0x7FFFFFFFFFFFFFFF", "0x8000000000000000", "0xFFFFFFFFFFFFFFFFF"}[n.leaf%3]
+		return []string{v}, "A(" + v + ")"
 	}
 	return []string{name}, "A(" + name + ")"
 }
@@ -241,7 +247,7 @@ func renderTree(t *tnode, full bool) (toks []string, shape string) {
 	case kUnary:
 		x, xs := operand(0)
 		// documented folding: a sign directly in front of an unsigned numeric literal is part of the literal
-		if (op.sym == "+" || op.sym == "-") && t.kids[0].op == nil && t.kids[0].atom == 3 && !full {
+		if (op.sym == "+" || op.sym == "-") && t.kids[0].op == nil && (t.kids[0].atom == 3 || t.kids[0].atom >= 5) && !full {
 			return append([]string{op.sym}, x...), "A(" + op.sym + strings.TrimSuffix(strings.TrimPrefix(xs, "A("), ")") + ")"
 		}
 		return append([]string{op.sym}, x...), "U(" + op.sym + "," + xs + ")"
